@@ -618,7 +618,7 @@ class LintFileE2EStream(Stream):
         self._pending = []
 
     def cases(self, tier, rng):
-        n = {"quick": 120, "thorough": 1500}[tier]
+        n = {"quick": 90, "thorough": 1500}[tier]
         out = []
         for _ in range(n):
             proj = e2e.gen_case(rng)
